@@ -384,7 +384,11 @@ pub fn tree_opt(start: &Start, depth: usize, follow_library: bool, rng: &mut Rng
 
 /// The standard workload mix W1-W4 for position-walking monitors: returns a start for case `k`.
 pub fn mixed_start(rng: &mut Rng, _k: u64, corpus: &[RPos]) -> Start {
-    match rng.below(8) {
+    match rng.below(9) {
+        8 => match synth::synth_ep_invented(rng) {
+            Some(s) => s,
+            None => synth::synth_ep(rng),
+        },
         0 | 1 => Start::plain(corpus[rng.below(corpus.len())].clone(), "corpus"),
         2 => Start::plain(synth::synth(rng, Density::Sparse), "synth_sparse"),
         3 => {
